@@ -3,7 +3,8 @@ from .common import *
 UNITS = []
 RWR = [dict(name='TVAL-src-id', pat='get_state_id ( stt , Transition :: current_state_type )', rep='g_src_id [ Transition ]', min=0, max=1),
        dict(name='TVAR-stt', pat='typedef create_stt ( Fsm ) stt ;', rep='', min=0, max=1),
-       # the function pointer stored is the row's execute or its event-converting wrapper: erased to the row's index (which function is stored is not modelled further)
+       # the function pointer stored is the row's execute (ROW) or its event-converting wrapper (ROW_CONVERTING)
+       dict(name='CELL-set-row-converting', pat='self -> entries [ $*I ] = & convert_event_and_forward < Transition > :: execute ;', rep='entries [ $*I ] = ROW_CONVERTING ( Transition ) ;', min=0, max=1),
        dict(name='CELL-set-row', pat='self -> entries [ $*I ] = $*F ;', rep='entries [ $*I ] = ROW ( Transition ) ;', min=0, max=1)]
 RWD = [dict(name='TVAL-state-id', pat='get_state_id ( stt , State )', rep='g_state_id [ State ]', min=0, max=1),
        dict(name='TVAR-stt', pat='typedef create_stt ( Fsm ) stt ;', rep='', min=0, max=1),
@@ -39,7 +40,7 @@ for be in BACKS:
                 '__CPROVER_decreases(g_ns - State)\n'
                 '{ if (g_is_completion_event) { if (g_state_is_fsm[State]) {@4} else {@3} } else if (g_deferred[State]) {@0} else if (g_state_is_fsm[State]) {@2} else {@1} }\n'
                 'g_phase = 1;   /* ghost */',
-        force_loop_contracts=True, cbmc_flags=['--object-bits', '12'], replay=['sel']))
+        force_loop_contracts=True, cbmc_flags=['--object-bits', '12'], replay=['sel', 'kleene']))
     UNITS.append(Unit(be + '.dispatch_table.row_cells', ['C01', 'C13'], be,
         [IB('true_', 'false_', 0), IB('true_', 'false_', 1), IB('false_', 'true_', 0), IB('false_', 'true_', 1), IB('true_', 'true_', 0), IB('true_', 'true_', 1), IB('false_', 'false_', 0), IB('false_', 'false_', 1)],   # @0..@7
         'void row_cells(int* entries)', 'rts_table.spec.h', defines=['UNIT_ROWS=1'],
@@ -47,7 +48,7 @@ for be in BACKS:
                 'for (type_t Transition = 0; Transition != g_nt; ++Transition)\n'
                 '__CPROVER_assigns(Transition, __CPROVER_object_whole(entries))\n'
                 '__CPROVER_loop_invariant(0 <= Transition && Transition <= g_nt)\n'
-                '__CPROVER_loop_invariant(entries[g_c] == ((g_has_row && g_i < Transition) ? ROW(g_i) : before))\n'
+                '__CPROVER_loop_invariant(entries[g_c] == ((g_has_row && g_i < Transition) ? CELLV(g_i) : before))\n'
                 '__CPROVER_decreases(g_nt - Transition)\n'
                 '{ if (!g_not_real[Transition]) { const _Bool fsm_src = g_src_is_fsm[Transition];\n'
                 '    if (g_is_base[Transition] && !g_is_kleene[Transition]) { if (fsm_src) {@1} else {@0} }\n'
@@ -55,4 +56,4 @@ for be in BACKS:
                 '    else if (g_is_base[Transition] && g_is_kleene[Transition]) { if (fsm_src) {@5} else {@4} }\n'
                 '    else { if (fsm_src) {@7} else {@6} } } }\n'
                 'g_phase = 2;   /* ghost */',
-        force_loop_contracts=True, cbmc_flags=['--object-bits', '12'], replay=['sel']))
+        force_loop_contracts=True, cbmc_flags=['--object-bits', '12'], replay=['sel', 'kleene']))
